@@ -240,7 +240,18 @@ pub fn parse_proj(definition: &str) -> Result<String, Error> {
         .map(|line| line.split('#').next().unwrap_or(""))
         .collect::<Vec<_>>()
         .join("\n");
-    if uncommented.contains('|') | !uncommented.contains("proj") {
+    // A PROJ string has at least one 'proj=' parameter. The letters "proj" elsewhere
+    // (in a macro name, or in the value of an argument) do not make it one
+    // (the key may be separated from its '=' by whitespace)
+    let mut keys: Vec<&str> = uncommented.split('=').collect();
+    keys.pop(); // what follows the last '=' is a value, not a key
+    let has_proj_parameter = keys.iter().any(|before| {
+        before
+            .split_whitespace()
+            .last()
+            .is_some_and(|key| key.trim_start_matches('+') == "proj")
+    });
+    if uncommented.contains('|') | !has_proj_parameter {
         return Ok(definition.to_string());
     }
     // Impose some line ending sanity and remove the PROJ '+' prefix
